@@ -20,7 +20,8 @@ EXPLANATION = (
     '(lint turns that into E02) and hide bindings located after the query position; R3 the visibility '
     'anchor of every assignment/walrus/import binding is the end of its value expression and of every '
     'for/with/except target the start of the body. The precision of get_expr_end itself (last visited '
-    'node vs textually last node) and escapes (return/raise ending a region) are NOT decided here.')
+    'node vs textually last node) and escapes (return/raise ending a region) are NOT decided here.'
+    ' Later additions: the lookups are interpreted on the rebuilt region graphs (nothing the graph hides may be found, certainty must agree); conditions are refined on demand (and / or chains with both operators: the branch taken when a chain holds starts after its last operand).')
 TECHNIQUE = ('region-template extraction by abstract interpretation + reaching-definition/dominance comparison '
              'with reference CFG templates + abstract interpretation of the resolution functions')
 
